@@ -1,16 +1,32 @@
 #!/bin/bash
-# usage: matrix.sh [tier]  - for every seeded change: apply to $VERIF_REPO (default /repo), run every registered quick check, revert.
+# usage: matrix.sh [tier] - for every seeded change: apply to $VERIF_REPO (default /repo), run the checks of every
+# property whose anchored code the change touches, revert. One line per change.
 T=${1:-quick}
 R=${VERIF_REPO:-/repo}
-props=$(python3 -c "import json;print(' '.join(c['property_id'] for c in json.load(open('MANIFEST.json'))['checks']))")
 mkdir -p matrix_logs
 for d in seeded/M*/; do
   id=$(basename $d)
+  files=$(grep '^+++ b/' $d/patch.diff | sed 's|+++ b/||')
+  props=""
+  for f in $files; do
+    case $f in
+      revocation.go|configparser.go|caddyfile.go|config/*) props="$props C03 C19 C01";;
+      crl/crlrevocationchecker.go) props="$props C10 C15 C13 C01 C20";;
+      crl/crlrepository/*) props="$props C08 C09 C10 C11 C12 C13 C16 C04 C01 C15 C20";;
+      crl/crlstore/*) props="$props C18 C09 C08 C11 C12 C16 C10 C01 C20";;
+      crl/crlloader/*) props="$props C20 C10 C15";;
+      crl/crlreader/*|core/asn1parser/*|core/hashing/*|core/signatureverify/*|core/pemreader/*) props="$props C06 C07 C04 C01";;
+      ocsp/*) props="$props C02 C05 C14 C13";;
+      core/certificatechains.go) props="$props C04 C02 C05";;
+      *) props="$props C01";;
+    esac
+  done
+  props=$(echo $props | tr ' ' '\n' | sort -u | tr '\n' ' ')
   git -C $R checkout -q -- . ; git -C $R apply "$(pwd)/${d}patch.diff" || { echo "$id: patch does not apply"; continue; }
-  line="$id"
+  line="$id [$(cat $d/meta.json | python3 -c 'import json,sys;print(json.load(sys.stdin)["breaks_property"])')]"
   for p in $props; do
-    ./check $p $T > matrix_logs/${id}_$p.log 2>&1; rc=$?
-    if [ $rc -eq 1 ]; then line="$line $p:VIOLATION"; elif [ $rc -ne 0 ]; then line="$line $p:inconclusive"; fi
+    timeout 1500 ./check $p $T > matrix_logs/${id}_$p.log 2>&1; rc=$?
+    if [ $rc -eq 1 ]; then line="$line $p:VIOLATION"; elif [ $rc -ne 0 ]; then line="$line $p:inconclusive"; else line="$line $p:-"; fi
   done
   git -C $R checkout -q -- .
   echo "$line"
